@@ -2,7 +2,7 @@
 get_task passes to the packaged dataset / tokenizer / model constructors of the
 language and CIFAR tasks (None = the callee's default is used)."""
 import ast
-from lib.c20tr import D, _T, _unsupported
+from lib.c20tr import A_forwarding, D, _T, _unsupported
 
 SRC = 'fedjax/training/tasks.py'
 
@@ -151,7 +151,8 @@ def _sh_default(tree):
 
 
 MODULES = {
-    'Gen_tasks': {'src': SRC, 'items': [_tasks]},
+    'Gen_tasks': {'src': SRC, 'items': [_tasks, A_forwarding('get_task', 'load_data', 'tasks_forward_mode_and_cache_dir',
+                                                             callee_params=['only_digits', 'sequence_length', 'mode', 'cache_dir'])]},
     'Gen_md_cifar100': {'src': 'fedjax/models/cifar100.py', 'items': [_cifar_model]},
     'Gen_ds_cifar100_defaults': {'src': 'fedjax/datasets/cifar100.py', 'items': [_cifar_defaults]},
     'Gen_ds_shakespeare_defaults': {'src': 'fedjax/datasets/shakespeare.py', 'items': [_sh_default]},
